@@ -101,6 +101,7 @@ def expr_positions(e):
         ("if-cond", "{ %s if (%s) { RdV = 2; } %s }" % (PRE, e, POST)),
         ("for-cond", "{ for (i = 0; %s; i++) { RdV = i; } }" % e),
         ("for-step", "{ for (i = 0; i < 2; %s) { RdV = i; i++; } }" % e),
+        ("for-step2", "{ for (i = 0; i < 2; %s) { RdV = i; i += 1; } }" % e),
         ("call-arg", "{ %s RdV = clz32(%s); %s }" % (PRE, e, POST)),
         ("cond-arm", "{ RdV = RtV ? %s : 3; }" % e),
         ("store-data", "{ mem_store_u32(RsV, %s); }" % e),
@@ -132,8 +133,8 @@ def space():
             out.append((("stmt", k, pos), text))
     for k, e in EXPRS.items():
         for pos, text in expr_positions(e):
-            if pos == "expr-stmt" and k in NO_EFFECT_AS_STATEMENT:
-                continue
+            if pos in ("expr-stmt", "for-step", "for-step2") and k in NO_EFFECT_AS_STATEMENT:
+                continue  # (the value of the step expression of a for loop is unused as well)
             out.append((("expr", k, pos), text))
     return out
 
